@@ -435,6 +435,9 @@ func runCLI(c Case) (o hx.Outcome) {
 				continue
 			}
 			seen[ch.ID] = true
+			if ch.Size == c.Sizes.Max && ch.ID == desync.NewNullChunk(c.Sizes.Max).ID {
+				o.Class("cli:null-chunk") // readers synthesise this one; the store has to hold it all the same
+			}
 			data, err := dst.chunkData(ch.ID)
 			switch {
 			case err != nil:
